@@ -216,7 +216,7 @@ def parse_pka(text):
         if m:
             out['stab'] = (float(m.group(1)), float(m.group(2)))
     i += 2
-    while i < n and lines[i].strip() and not lines[i].startswith('The pI'):
+    while i < n and lines[i].strip() and not lines[i].startswith(('The pI', 'Could not')):
         ln = lines[i]
         i += 1
         out['charge'].append((float(ln[:6]), float(ln[6:16]), float(ln[16:24])))
